@@ -71,6 +71,9 @@ DE3 == EnumD("E3", <<EV("X")>>)
 DCfg == DirectiveD("cfg", <<ArgDD("o", Named("In"), V("obj", [f |-> IntV(2)]))>>, <<"OBJECT", "FIELD_DEFINITION">>)
 DUseCfg == WithDirs(ObjectD("W", <<>>, <<FieldD("w", I, <<>>)>>), <<DU("cfg", <<AV("o", V("obj", [f |-> IntV(4)]))>>)>>)
 XInD == Ext(InputD("In", <<ArgDD("k", I, IntV(5))>>))
+\* ... and the same with LISTS of input objects as the default and as the value of a use
+DCfgL == DirectiveD("cfgl", <<ArgDD("os", ListOf(Named("In")), ListV(<<V("obj", [f |-> IntV(2)]), V("obj", [e |-> V("enum", "P")])>>))>>, <<"OBJECT">>)
+DUseCfgL == WithDirs(ObjectD("WL", <<>>, <<FieldD("w", I, <<>>)>>), <<DU("cfgl", <<AV("os", ListV(<<V("obj", [f |-> IntV(4)]), V("obj", [x \in {} |-> NullV])>>))>>)>>)
 
 \* a directive whose argument is non-null and has a default: left out the default stands in, an explicit null is refused -
 \* in the document that defines the directive and in a later one
@@ -80,7 +83,7 @@ UseReq(name, args) == WithDirs(ObjectD(name, <<>>, <<FieldD("r", I, <<>>)>>), <<
 GoodDocs ==
   { <<DQuery, DA, DB, DN>>, <<DU1, DE, DIn>>, <<DMut>>, <<DTag, DDate>>, <<XQuery>>, <<XA>>, <<XE, XU>>, <<XIn>>,
     <<DSchema>>, <<DSchemaQ>>, <<DE>>, <<DIn, DMut>>, <<DMut2>>, <<DSub>>, <<XQuery2, XE2>>,
-    <<XAImpl>>, <<DTop, DSchemaTop>>, <<DSub, XSchemaSub>>, <<XSchemaMut>>, <<XDateTag>>, <<DMark, DE3>>, <<DCfg, DUseCfg>>, <<XInD>>, <<DReq>>, <<WithDesc(ScalarD("Date"), "again")>>, <<UseReq("R1", <<>>)>>, <<DReq, UseReq("R2", <<AV("n", IntV(5))>>)>>,
+    <<XAImpl>>, <<DTop, DSchemaTop>>, <<DSub, XSchemaSub>>, <<XSchemaMut>>, <<XDateTag>>, <<DMark, DE3>>, <<DCfg, DUseCfg>>, <<DCfgL, DUseCfgL>>, <<XInD>>, <<DReq>>, <<WithDesc(ScalarD("Date"), "again")>>, <<UseReq("R1", <<>>)>>, <<DReq, UseReq("R2", <<AV("n", IntV(5))>>)>>,
     \* types and directives have name spaces of their own: one document defines a directive and a scalar of one name and uses both
     <<DirectiveD("both", <<>>, <<"OBJECT">>), ScalarD("both"), WithDirs(ObjectD("Holder", <<>>, <<FieldD("d", Named("both"), <<>>)>>), <<DU("both", <<>>)>>)>>,
     <<EnumD("both2", <<EV("P")>>), DirectiveD("both2", <<>>, <<"ENUM">>)>> }
